@@ -38,7 +38,9 @@ func runC10(c *eng.Ctx) {
 				need   []string // fields the free-slot requirement of the first node mentions
 			}
 			lv := []lvl{
-				{func(v ssa.Value) bool { return eng.Mentions(v, 6, func(x ssa.Value) bool { return eng.IsParamLike(x, "topo") }) }, "ReplicaPlacement.DiffDataCenterCount", "topology", "VolumeGrowOption.DataCenter", []string{"ReplicaPlacement.DiffRackCount", "ReplicaPlacement.SameRackCount"}},
+				{func(v ssa.Value) bool {
+					return eng.Mentions(v, 6, func(x ssa.Value) bool { return eng.IsParamLike(x, "topo") })
+				}, "ReplicaPlacement.DiffDataCenterCount", "topology", "VolumeGrowOption.DataCenter", []string{"ReplicaPlacement.DiffRackCount", "ReplicaPlacement.SameRackCount"}},
 				{func(v ssa.Value) bool {
 					return eng.Mentions(v, 6, func(x ssa.Value) bool {
 						ta, ok := x.(*ssa.TypeAssert)
